@@ -843,7 +843,7 @@ Proof.
   - apply IHr.
   - apply sorted_app; [apply IHb|apply IHr|].
     apply (between _ _ (pc + ninstr b)); [apply ents_starts_le|apply ents_starts].
-  - pose proof (ninstr_nonneg b).
+  - pose proof (ninstr_nonneg b). assert (Hit : 0 <= len it) by (unfold len; lia).
     set (S := pc + hdr_n parts). set (C := S + 1 + ninstr b).
     apply sorted_app; [apply mk_ents_sorted| |].
     + apply sorted_app; [apply mk_ents_sorted| |].
